@@ -21,34 +21,6 @@ type skelSpec struct {
 
 const defaultCalls = `(\.|^)(Lock|Unlock|RLock|RUnlock|Do|Wait|Done|Add)$|^(close|delete|panic|make)$|^heap\.|^time\.After$|\.Close$`
 
-var skelSpecs = []skelSpec{
-	{"broker_Broker", "broker", "BrokerContext.Broker", ""},
-	{"broker_RequestOffer", "broker", "BrokerContext.RequestOffer", ""},
-	{"broker_AddSnowflake", "broker", "BrokerContext.AddSnowflake", ""},
-	{"broker_ClientOffers", "broker", "IPC.ClientOffers", `matchSnowflake|SetBrokerResponse`},
-	{"broker_matchSnowflake", "broker", "IPC.matchSnowflake", ""},
-	{"broker_ProxyAnswers", "broker", "IPC.ProxyAnswers", ""},
-	{"broker_ProxyPolls", "broker", "IPC.ProxyPolls", `RequestOffer|CheckProxyRelayPattern`},
-	{"broker_roundedCounter_Inc", "broker", "roundedCounter.Inc", `^atomic\.`},
-	{"turbotunnel_dialLoop", "common/turbotunnel", "RedialPacketConn.dialLoop", `exchange|dialContext|closeWithError`},
-	{"turbotunnel_exchange", "common/turbotunnel", "RedialPacketConn.exchange", `ReadFrom|WriteTo`},
-	{"turbotunnel_Redial_closeWithError", "common/turbotunnel", "RedialPacketConn.closeWithError", `Store`},
-	{"turbotunnel_QueueIncoming", "common/turbotunnel", "QueuePacketConn.QueueIncoming", ""},
-	{"turbotunnel_Queue_WriteTo", "common/turbotunnel", "QueuePacketConn.WriteTo", `SendQueue`},
-	{"turbotunnel_Queue_closeWithError", "common/turbotunnel", "QueuePacketConn.closeWithError", `Store`},
-	{"client_Peers_Collect", "client/lib", "Peers.Collect", `Catch|Count|PushBack`},
-	{"client_Peers_Pop", "client/lib", "Peers.Pop", `closed`},
-	{"client_Peers_End", "client/lib", "Peers.End", `Count`},
-	{"client_Peers_purgeClosedPeers", "client/lib", "Peers.purgeClosedPeers", `closed|Remove`},
-	{"client_connect", "client/lib", "WebRTCPeer.connect", `preparePeerConnection|LocalDescription|Negotiate|SetRemoteDescription|exchangeSDP`},
-	{"proxy_tokens_get", "proxy/lib", "tokens_t.get", `^atomic\.`},
-	{"proxy_tokens_ret", "proxy/lib", "tokens_t.ret", `^atomic\.`},
-	{"proxy_runSession", "proxy/lib", "SnowflakeProxy.runSession", `tokens\.|pollOffer|makePeerConnectionFromOffer|sendAnswer|IsMember|DeserializeSessionDescription`},
-	{"proxy_datachannelHandler", "proxy/lib", "SnowflakeProxy.datachannelHandler", `tokens\.|copyLoop|Dial`},
-	{"safelog_Write", "common/safelog", "LogScrubber.Write", `Scrub|LastIndexByte|IndexByte|Write$`},
-	{"safelog_Scrub", "common/safelog", "Scrub", `ReplaceAll|Match`},
-}
-
 func exprStrShort(fset *token.FileSet, e ast.Node) string {
 	s := exprStr(fset, e)
 	if len(s) > 90 {
@@ -257,32 +229,26 @@ func leanStr(s string) string {
 	return `"` + s + `"`
 }
 
-func emitSkeletons() string {
-	var b strings.Builder
-	b.WriteString("/- GENERATED by /verif/extract from the repository working tree. Do not edit. -/\nnamespace Snowflake.Gen.Skeleton\n\n")
-	for _, sp := range skelSpecs {
-		p := loadPkg(sp.dir)
-		fd, ok := p.funcs[sp.name]
-		if !ok || fd.Body == nil {
-			fmt.Fprintf(&b, "/-- `%s` `%s` not found. -/\ndef %s : List String := [\"<missing>\"]\n\n", sp.dir, sp.name, sp.lean)
-			continue
-		}
-		pat := defaultCalls
-		if sp.calls != "" {
-			pat += "|" + sp.calls
-		}
-		k := &skel{fset: p.fset, calls: regexp.MustCompile(pat)}
-		facts := k.block(fd.Body.List)
-		fmt.Fprintf(&b, "/-- skeleton of `%s` `%s` -/\ndef %s : List String := [\n", sp.dir, sp.name, sp.lean)
-		for i, f := range facts {
-			sep := ","
-			if i == len(facts)-1 {
-				sep = ""
-			}
-			fmt.Fprintf(&b, "  %s%s\n", leanStr(f), sep)
-		}
-		b.WriteString("]\n\n")
+func emitSkel(b *strings.Builder, sp skelSpec) {
+	p := loadPkg(sp.dir)
+	fd, ok := p.funcs[sp.name]
+	if !ok || fd.Body == nil {
+		fmt.Fprintf(b, "/-- `%s` `%s` not found. -/\ndef %s : List String := [\"<missing>\"]\n\n", sp.dir, sp.name, sp.lean)
+		return
 	}
-	b.WriteString("end Snowflake.Gen.Skeleton\n")
-	return b.String()
+	pat := defaultCalls
+	if sp.calls != "" {
+		pat += "|" + sp.calls
+	}
+	k := &skel{fset: p.fset, calls: regexp.MustCompile(pat)}
+	facts := k.block(fd.Body.List)
+	fmt.Fprintf(b, "/-- skeleton of `%s` `%s` -/\ndef %s : List String := [\n", sp.dir, sp.name, sp.lean)
+	for i, f := range facts {
+		sep := ","
+		if i == len(facts)-1 {
+			sep = ""
+		}
+		fmt.Fprintf(b, "  %s%s\n", leanStr(f), sep)
+	}
+	b.WriteString("]\n\n")
 }
